@@ -72,7 +72,7 @@ def run_property(P, tier, seed, replay=None):
     # harness trouble (the implementation side could not be executed: bind/connect failure, start-up or read timeout under
     # load ...) is not an outcome of the code: such cases are run again, up to two more times and with less parallelism; what
     # still cannot be executed is counted (and named) as not_executed, never compared, and fails the run when it is too much
-    trouble = getattr(P, "harness_trouble", lambda c, i: re.match(r"\(L \(N 93\)|\(L \(N 96\) \((N|B) ", i) is not None)
+    trouble = getattr(P, "is_trouble", lambda c, i: re.match(r"\(L \(N 93\)|\(L \(N 96\) \((N|B) ", i) is not None)
     retried = 0
     if harness_error is None and not replay:
         for attempt in (1, 2):
@@ -187,12 +187,13 @@ def run_property(P, tier, seed, replay=None):
             path = kv.write_replay(prop, replay_payload(mismatches[:5], "; ".join(reason),
                                                         {"broken_theorems": {n: results[n]["why"] for n in broken if n in results}}))
             violations.append((path, " no-failing-input-found"))
+    max_ne = getattr(P, "MAX_NOT_EXECUTED", max(2, len(cases) // 50))
     # a component none of whose cases is comparable any more is no longer tied to the code
     dead = sorted(comp for comp, n in n_by_comp.items()
                   if n >= 5 and ood_by_comp.get(comp, 0) == n and comp not in getattr(P, "OOD_ONLY_COMPONENTS", ()))
-    if cases and harness_error is None and (not_executed > max(2, len(cases) // 50) or dead):
+    if cases and harness_error is None and (not_executed > max_ne or dead):
         why = []
-        if not_executed > max(2, len(cases) // 50):
+        if not_executed > max_ne:
             why.append("%d of %d cases could not be executed (first: %s)" % (
                 not_executed, len(cases), "; ".join("%s %s: %s" % (c.id, c.comp, w) for c, w in not_executed_cases[:3])))
         if dead:
@@ -204,6 +205,15 @@ def run_property(P, tier, seed, replay=None):
                                                 for c, _ in not_executed_cases[:5]]})
         if not violations:
             violations.append((path, " no-failing-input-found"))
+
+    # property-specific harness trouble (e.g. too many scenarios that could not be run under their timing constraints)
+    if hasattr(P, "harness_trouble") and harness_error is None and cases:
+        why = P.harness_trouble(cases, impl, model)
+        if why:
+            notes.append("harness error: " + why)
+            path = kv.write_replay(prop, {"property": prop, "reason": "correspondence broken: " + why})
+            if not violations:
+                violations.append((path, " no-failing-input-found"))
 
     # ---- 6. extraction cross-check sample ---------------------------------------------------
     nsample = getattr(P, "KERNEL_SAMPLE", 40)
@@ -233,7 +243,7 @@ def run_property(P, tier, seed, replay=None):
         "distribution": dist,
         "out_of_domain": out_of_domain,
         "not_executed": not_executed,
-        "not_executed_cases": [{"id": c.id, "component": c.comp, "kind": c.meta.get("kind"), "why": w} for c, w in not_executed_cases[:20]],
+        "not_executed_ids": [{"id": c.id, "component": c.comp, "kind": c.meta.get("kind"), "why": w} for c, w in not_executed_cases[:50]],
         "harness_trouble_retried": retried,
         "out_of_domain_by_component": {k: "%d of %d" % (v, n_by_comp[k]) for k, v in sorted(ood_by_comp.items())},
         "mismatches_model_vs_implementation": len(mismatches),
